@@ -42,6 +42,8 @@ def cases(tier, seed):
             yield dict(pg.program(), kind="prog", stream="core")
     for c in P.fixed_char_programs(rng, 90 if tier == "quick" else 900):
         yield dict(c, kind="prog", stream="fixed_char")
+    for c in P.mixed_fixed_programs(rng, 40 if tier == "quick" else 400):
+        yield dict(c, kind="prog", stream="mixed_fixed")
     for c in P.outside_programs(rng, 60 if tier == "quick" else 400):
         yield dict(c, kind="prog", stream="outside")
 
